@@ -92,16 +92,24 @@ def predicate(res, hr):
                     res.violation(f"after RegisterWord({r!r}, {w!r}) was acknowledged and applied, converting {r!r} is answered {obs['texts']} - without the word, "
                                   f"unlike a freshly started server holding the same data", {"base": hr.base, "requests": hr.requests})
     known = False
+    f16_stems = []
     _, robs = hr.events[restart_idx]
     if robs and robs.get("before") and robs.get("after"):
         lost = [l for l in robs["before"]["user_entries"] if l not in robs["after"]["user_entries"]]
-        known = bool(lost) and all(f16_entry(l) for l in lost)
+        # known finding F16: guessed entries with an empty stem or stem reading are lost at the restart; what they made convertible
+        # (their stem + an okurigana) disappears with them.  Other lost lines are judged by their own effect on the answers.
+        f16_stems = [l.split("\t")[1] for l in lost if f16_entry(l)]
+        known = bool(f16_stems)
     for ev, obs in hr.events[restart_idx + 1:]:
         if ev["t"] == "convert":
             if obs is None:
                 res.violation(f"after the restart the conversion of {ev['input']!r} is not answered", {"base": hr.base, "requests": hr.requests})
             elif (ev["input"], ev["ctx"]) in before and before[(ev["input"], ev["ctx"])] != obs["texts"]:
-                if known:
+                b4 = before[(ev["input"], ev["ctx"])]
+                gone = [t for t in b4 if t not in obs["texts"]]
+                only_f16 = known and not [t for t in obs["texts"] if t not in b4] and all(any(t.startswith(st) for st in f16_stems) for t in gone) \
+                    and [t for t in b4 if t not in gone] == obs["texts"]
+                if only_f16:
                     res.known("F16", "a guessed entry with an empty stem (word = a bare ending such as い) is convertible until the restart and lost afterwards")
                 else:
                     res.violation(f"the restarted server answers {ev['input']!r} differently from the server that wrote the data: {before[(ev['input'], ev['ctx'])]} vs {obs['texts']}",
